@@ -58,11 +58,23 @@ impl Clone for OneTimeKeyBundle { #[verifier::external_body] fn clone(&self) -> 
 impl Clone for LongTermKeyBundle { #[verifier::external_body] fn clone(&self) -> (r: Self) ensures r == *self { unimplemented!() } }
 
 // ---- HashMap pieces without vstd specs (assumed) ----------------------------------------------------------------------
-pub uninterp spec fn key_matches<K, Q: ?Sized>(kk: K, k: &Q) -> bool;
+pub mod km_ax {
+    use super::*;
+    pub uninterp spec fn key_matches<K, Q: ?Sized>(kk: K, k: &Q) -> bool;
+    // `impl Borrow<K> for K` is the identity: the stored key matched by `&k` is the key equal to k
+    pub broadcast axiom fn key_matches_same<K>(kk: K, k: &K) ensures #[trigger] key_matches::<K, K>(kk, k) == (kk == *k);
+}
+pub use km_ax::*;
+broadcast use key_matches_same;
 pub assume_specification<'a, K, V, S, A, Q> [std::collections::HashMap::<K, V, S, A>::get_mut::<Q>] (m: &'a mut HashMap<K, V, S, A>, k: &Q) -> (r: Option<&'a mut V>)
     where A: Allocator, K: Eq + Hash + Borrow<Q>, Q: std::marker::MetaSized + Hash + Eq + ?Sized, S: BuildHasher,
+    ensures
+        obeys_key_model::<K>() && builds_valid_hashers::<S>() ==> match r {
+            Some(v) => contains_borrowed_key(old(m)@, k) && maps_borrowed_key_to_value(old(m)@, k, *v)
+                 && (forall|kk: K| #[trigger] old(m)@.contains_key(kk) && key_matches(kk, k) ==> final(m)@ == old(m)@.insert(kk, *final(v))),
+            None => !contains_borrowed_key(old(m)@, k) && final(m)@ == old(m)@,
+        }
 ;
-pub assume_specification<'a, K, V, A: Allocator, F: FnOnce(&mut V)> [Entry::<'a, K, V, A>::and_modify] (e: Entry<'a, K, V, A>, f: F) -> (r: Entry<'a, K, V, A>);
 
 // ---- specification -----------------------------------------------------------------------------------------------------
 pub open spec fn lifetime_valid_now(l: Lifetime) -> bool { !clock_fails() && l.not_before < spec_now() && spec_now() < l.not_after }
@@ -71,4 +83,36 @@ pub open spec fn onetime_ok_now(b: OneTimeKeyBundle) -> bool {
 }
 pub open spec fn longterm_ok_now(b: LongTermKeyBundle) -> bool {
     lifetime_valid_now(b.signed_prekey.1) && xsig_ok(b.signed_prekey.0.0@, b.identity_key, b.prekey_signature)
+}
+
+// ---- long-term retrieval -------------------------------------------------------------------------------------------------
+// the part of trait KeyBundle that latest_key_bundle uses; implemented for LongTermKeyBundle by forwarding to its extracted method
+pub trait KeyBundle: Clone {
+    spec fn spec_lifetime(&self) -> Lifetime;
+    fn lifetime(&self) -> (r: &Lifetime) ensures *r == self.spec_lifetime();
+}
+impl KeyBundle for LongTermKeyBundle {
+    open spec fn spec_lifetime(&self) -> Lifetime { self.signed_prekey.1 }
+    fn lifetime(&self) -> (r: &Lifetime) { LongTermKeyBundle::lifetime(self) }
+}
+// `Ord for Lifetime` compares `not_after` (the real impls are extracted and checked against these specs)
+pub open spec fn u64_cmp(a: u64, b: u64) -> core::cmp::Ordering {
+    if a < b { core::cmp::Ordering::Less } else if a == b { core::cmp::Ordering::Equal } else { core::cmp::Ordering::Greater }
+}
+impl vstd::std_specs::cmp::PartialEqSpecImpl for Lifetime {
+    open spec fn obeys_eq_spec() -> bool { true }
+    open spec fn eq_spec(&self, other: &Lifetime) -> bool { *self == *other }
+}
+impl vstd::std_specs::cmp::PartialOrdSpecImpl for Lifetime {
+    open spec fn obeys_partial_cmp_spec() -> bool { true }
+    open spec fn partial_cmp_spec(&self, other: &Lifetime) -> Option<core::cmp::Ordering> { Some(u64_cmp(self.not_after, other.not_after)) }
+}
+impl vstd::std_specs::cmp::OrdSpecImpl for Lifetime {
+    open spec fn obeys_cmp_spec() -> bool { true }
+    open spec fn cmp_spec(&self, other: &Lifetime) -> core::cmp::Ordering { u64_cmp(self.not_after, other.not_after) }
+}
+// every stored bundle carries a valid signature of its identity key (checked when it was added; signatures do not expire)
+pub open spec fn stored_signatures_valid<ID: IdentityHandle>(y: KeyRegistryState<ID>) -> bool {
+    forall|id: ID, i: int| y.longterm_bundles@.contains_key(id) && 0 <= i < y.longterm_bundles@[id]@.len()
+        ==> xsig_ok((#[trigger] y.longterm_bundles@[id]@[i]).signed_prekey.0.0@, y.longterm_bundles@[id]@[i].identity_key, y.longterm_bundles@[id]@[i].prekey_signature)
 }
